@@ -1,6 +1,7 @@
 -- GENERATED: axiom audit for Props/C04*.lean
 import Props.C04_hier
 import Props.C04_xml
+import Props.C04_xmlattrs
 #print axioms SpyneModel.Props.C04hier.facts02_body
 #print axioms SpyneModel.Props.C04hier.facts02_good
 #print axioms SpyneModel.Props.C04hier.hier_decode_sound
@@ -14,3 +15,5 @@ import Props.C04_xml
 #print axioms SpyneModel.Props.C04xml.retag_rejected
 #print axioms SpyneModel.Props.C04xml.retag_fault
 #print axioms SpyneModel.Props.C04xml.unknown_xsi_type_fault
+#print axioms SpyneModel.Props.C04xmlattrs.xml_decode_sound_attrs
+#print axioms SpyneModel.Props.C04xmlattrs.modifier_value_kind
